@@ -3,5 +3,6 @@
    OCaml's own types; nat, N, Z, positive stay extracted datatypes. *)
 From Coq Require Extraction.
 From Coq Require Import ExtrOcamlBasic.
-From VL Require Import Bytes Idl IdlDump.
-Extraction "model.ml" idl_case idl_oracle parse dump_presult.
+From VL Require Import Bytes Idl IdlDump Wire.
+Extraction "model.ml" idl_case idl_oracle parse dump_presult
+  run_ops read_all split_frames frame.
